@@ -6,6 +6,7 @@ import (
 	"strconv"
 	"strings"
 	"text/template"
+	"unicode"
 
 	"golang.org/x/text/cases"
 	"golang.org/x/text/language"
@@ -494,7 +495,18 @@ func enumMemberName(v interface{}) string {
 	var s string
 	switch n := v.(type) {
 	case string:
-		return FieldName(n)
+		// a member can be any string: what cannot be part of an identifier
+		// becomes an underscore, the empty string gets a name of its own
+		name := strings.Map(func(r rune) rune {
+			if r == '_' || unicode.IsLetter(r) || unicode.IsDigit(r) {
+				return r
+			}
+			return '_'
+		}, FieldName(n))
+		if name == "" {
+			name = "Empty"
+		}
+		return name
 	case float64:
 		s = strconv.FormatFloat(n, 'f', -1, 64)
 	default:
